@@ -524,6 +524,8 @@ def suite_flush_service(report, prop="C13"):
     fails or takes the rest."""
     cases = [("drv.run kind=threaded v=5 fplan=o,o,w wplan=a100000,a100000,a100000,b,e | start;waitwire:1;subto:300;waitwire:2;sleep:20;pub:0:6000;sleep:700;frelease;sleep:100;mark:flushed;sleep:50;release;sleep:300", "fails"),
              ("drv.run kind=threaded v=5 fplan=o,o,w wplan=a100000,a100000,a100000,b,a100000 | start;waitwire:1;subto:300;waitwire:2;sleep:20;pub:0:6000;sleep:700;frelease;sleep:100;mark:flushed;sleep:50;release;sleep:300", "takes-rest")]
+    # the tokio client in the same situation (its flush future stays pending until released)
+    cases += [(r.replace("kind=threaded", "kind=tokio"), v) for r, v in cases]
     impl = harness_batch_parallel([c[0] for c in cases])
     ok = True
     for (req, variant), a in zip(cases, impl):
